@@ -29,7 +29,7 @@ class Cfg:
                  b(self.re in ("anch", "anch1")), ",".join('"%s"' % k for k in self.match_keys) if self.re else ""))
 
     def regexp(self):
-        return {None: None, "unanch": "zzsecret", "anch": "^(zzsecretA|zzsecretB|zzsecret[0-9]+)$", "anch1": "^zzsecretA$",
+        return {None: None, "unanch": "zzsecret", "anch": "^(zzsecretA|zzsecretB|zzsecret[0-9]+|date|oid|binary|base64|numberLong|eq|gte|ne|set|match|expr|and|or|cond|lookup|group|search)$", "anch1": "^zzsecretA$",
                 "ci": "(?i)ZZSECRET"}[self.re]
 
     def flags(self):
@@ -308,6 +308,10 @@ class Concretiser:
             if lab == "env":
                 node = ('num', rng.choice(["7469113720208097282", "1E5", "-0.0", "1e400", "12345678901234567890123", "0.1000", "43", "-7", "2.50e-3",
                                             "-0", "-0e0", "0E+5", "1E+2", "10000000000000000000", "-9223372036854775809", "0.0"]) if v else "43")
+            elif lab == "any":
+                # numbers at positions the grammar does not derive (damaged statements, positions of a bulkWrite op ...): small, negative, fractional, huge
+                s = ["-1", "%d" % (7000000 + idn), "2.5", "-%d" % (7000000 + idn), "0", "99999999999", "1e3", "-0"][idn % 8]
+                node, tok = ('num', s), s
             else:
                 s = "%d.%d5" % (7000000 + idn, rng.randint(0, 9)) if (v == 0 or rng.random() < 0.5) else rng.choice(["%d", "-%d", "%de2", "%d.0E-1"]) % (7000000 + idn)
                 node, tok = ('num', s), s
@@ -448,8 +452,12 @@ class Concretiser:
         if self.variant > 0 and self.rng.random() < 0.3:
             # a log that went through a re-serialiser: same members, another order ("attr" in front of "c" / "msg")
             kv = [e for e in kv if e[0] == "attr"] + [e for e in kv if e[0] != "attr"]
-            # (the leaves stay in document order)
-            self.leaves = [lf for lf in self.leaves if lf.path[:1] == ("attr",)] + [lf for lf in self.leaves if lf.path[:1] != ("attr",)]
+        if self.variant > 0 and self.rng.random() < 0.3:
+            # ... or "ns" behind the command documents inside attr
+            kv = [(k, ('obj', [e for e in v[1] if e[0] != "ns"] + [e for e in v[1] if e[0] == "ns"]) if k == "attr" and v[0] == 'obj' else v) for k, v in kv]
+        # (the leaves stay in document order)
+        order = {p_: i_ for i_, (p_, _) in enumerate(jsonx.leaves(('obj', kv)))}
+        self.leaves.sort(key=lambda lf: order.get(lf.path, 1 << 30))
         for lf in self.leaves:
             if lf.path == ("id",):
                 lf.node = ('num', str(line_id))
